@@ -20,6 +20,7 @@ class Cfg:
         self.max_children = 5
         self.max_width = 3
         self.alphabet = SIMPLE
+        self.bundle_alphabet = None  # names of ports/cables (default: alphabet)
         self.unnamed = False       # allow elements without name
         self.lower_index = True    # allow non-zero lower_index on multi-bit bundles
         self.scalar_lower_index = False  # allow non-zero lower index on scalars
@@ -53,7 +54,9 @@ def _unique(draw, used, alphabet, unnamed, tag):
     n = 0
     while name in used:
         n += 1
-        name = "%s%s%d" % (base, tag, n)
+        suffix = "%s%d" % (tag, n)
+        # a base at a length limit keeps its length (the suffix replaces its tail)
+        name = (base[:len(base) - len(suffix)] + suffix) if len(base) > 200 else base + suffix
     used.add(name)
     return name
 
@@ -87,7 +90,7 @@ def _data(draw, cfg):
 
 @st.composite
 def _bundle(draw, cfg, used, tag):
-    name = _unique(draw, used, cfg.alphabet, cfg.unnamed, tag)
+    name = _unique(draw, used, cfg.bundle_alphabet or cfg.alphabet, cfg.unnamed, tag)
     lo_w = 0 if cfg.empty_bundles and draw(st.integers(0, 9)) == 0 else 1
     w = draw(st.integers(lo_w, cfg.max_width))
     arr = w > 1 or (cfg.one_wide_arrays and w == 1 and draw(st.integers(0, 4)) == 0)
